@@ -28,7 +28,7 @@ N = lambda *lines: ("n", None, list(lines))  # noqa: E731
 BLOCKS = [
     O(b"a.txt", b"Name=zulu last"), O(b"a.txt", b"Numb=2"), O(b"a.txt", b"Type=1"), O(b"a.txt", b"Name=Alpha Two", b"Numb=1"), O(b"a.txt", b"Type=X"), O(b"a.txt", b"Type=-"),
     O(b"a.txt", b"Host=other.example", b"Port=7070"), O(b"a.txt", b"Abstract=one line override"), O(b"a.txt", b"Abstract=two\\", b"lines"), O(b"d", b"Name=Dir Renamed", b"Numb=-1"),
-    O(b"a.txt", b"Host=+", b"Port=+"), O(b"e.txt", b"Numb=-2"), O(b"e.txt", b"Numb=2", b"Name=Echo"), O(b"b.html", b"Type=X"),
+    O(b"a.txt", b"Host=+", b"Port=+"), O(b"e.txt", b"Numb=-2"), O(b"e.txt", b"Numb=2", b"Name=echo"), O(b"b.html", b"Type=X"),
     N(b"Name=Remote", b"Type=1", b"Path=/r", b"Host=remote.example", b"Port=7070"),
     N(b"Name=Remote First", b"Type=1", b"Path=/r1", b"Host=remote.example", b"Port=7070", b"Numb=1"),
     N(b"Name=Local Abs", b"Type=0", b"Path=/t/sub/x.txt", b"Host=+", b"Port=+"),
@@ -40,7 +40,7 @@ BLOCKS = [
     N(b"# a comment before the block", b"Name=Commented", b"Type=0", b"Path=/c", b"Host=+", b"Port=+"),
     N(b"Name=Zed", b"Type=0", b"Path=/z", b"Host=+", b"Port=+", b"Numb=10"),
     N(b"Name=Alpha", b"Type=0", b"Path=/dup", b"Host=+", b"Port=+", b"Numb=2"),
-    O(b"a.txt", b"Numb=0"), O(b"e.txt", b"Name=echo renamed"),
+    O(b"a.txt", b"Numb=0"), O(b"e.txt", b"Name=echo renamed"), O(b"e.txt", b"Numb=0"), O(b"e.txt", b"Numb=3"),
 ]
 
 
